@@ -34,10 +34,12 @@ def check(ctx):
     C07.ejson_agreement(ctx)
     # 3. value types that are a table
     abstypes.r18_join_aggregators(ctx)
+    abstypes.r18_target_field(ctx)
     abstypes.r18_computed_field(ctx)
     # R18c evaluates each operation on a list of values of the source fields' type: that is what the operation receives only if the
     # row wrapper hands it exactly the row's non-null source values, untouched (shared clause with C15)
     C15.computed_field_clause(ctx)
+    C15.computed_field_schema_clause(ctx)
     abstypes.r18_reuse_guard(ctx)
     abstypes.r17_isinstance_order(ctx, [ctx.repo.func('dataflows.helpers.iterable_loader:iterable_storage.field_type')])
     ft = ctx.repo.func('dataflows.helpers.iterable_loader:iterable_storage.field_type')
@@ -102,6 +104,30 @@ def check(ctx):
                                       {'__kinds__': ('WRITE_ONCE',)})])
     n29 = stream.r29_no_shared_fields(ctx, stream.package_phase_functions(ctx))
     run.floor('R29', n29, 8, 'schema field stores')
+    # 4b. package metadata given by the user never replaces the resource list: update_package(**metadata) copies the mapping into the
+    #     package descriptor wholesale, so the 'resources' key is taken out first (a replaced list no longer pairs with the streams)
+    run.rule('UPK', "USER-METADATA: update_package removes 'resources' from the user's mapping before it updates the package descriptor "
+                    'with it')
+    up = ctx.repo.func('dataflows.processors.update_package:update_package')
+    import ast as _a3
+    from sa.loader import own_nodes as _own
+    from sa.model import u as _u3, where as _w3
+    from sa.deps import pseudo as _p3
+    inner = [x for x in up.node.body if isinstance(x, _a3.FunctionDef)]
+    ups = [c for f_ in inner for c in _a3.walk(f_) if isinstance(c, _a3.Call) and isinstance(c.func, _a3.Attribute) and c.func.attr == 'update'
+           and _u3(c.func.value).endswith('.descriptor') and len(c.args) == 1 and isinstance(c.args[0], _a3.Name)]
+    if len(ups) != 1:
+        raise AnalysisError('update_package: descriptor.update(<mapping>) not found')
+    mp = ups[0].args[0].id
+    outer = [x for x in up.node.body if not isinstance(x, _a3.FunctionDef)]
+    removed = any((isinstance(x, _a3.Delete) and any(_u3(t) == "%s['resources']" % mp for t in x.targets)) or
+                  (isinstance(x, _a3.Call) and isinstance(x.func, _a3.Attribute) and x.func.attr == 'pop' and _p3(x.func.value) == mp
+                   and x.args and isinstance(x.args[0], _a3.Constant) and x.args[0].value == 'resources')
+                  for st_ in outer for x in _a3.walk(st_))
+    filtered = any(isinstance(x, _a3.Assign) and _p3(x.targets[0]) == mp and isinstance(x.value, _a3.DictComp) and
+                   "!= 'resources'" in _u3(x.value) for st_ in outer for x in _a3.walk(st_))
+    run.check(removed or filtered, 'UPK', _w3(ctx.repo, ups[0]), up.qualname, "del metadata['resources'] before descriptor.update(metadata)",
+              "update_package(resources=...) replaces the package's resource list: descriptors and row streams no longer pair up")
     # 5. unique names
     stream.r27_name_uniqueness(ctx)
     run.trusted += ['LF1', 'LF8 tableschema integer rejects non-integral floats',
